@@ -1766,25 +1766,23 @@ theorem bindSelf_method (a : τ) (m : FnMember τ) (hm : m.static = false) :
   simp only [hm, Bool.false_eq_true, if_false]
   cases m.hdr.po.isEmpty <;> rfl
 
-/-- For two methods (neither is a staticmethod) `_can_assign_to_base_callable` is
-`Signature.can_assign` on the headers without `self`. -/
-theorem callableOk_methods (R : TyRel τ) (a : τ) (b c : FnMember τ)
-    (hb : b.static = false) (hc : c.static = false) :
-    callableOk R (b.raw a) (c.raw a) = sigCanAssign R b.hdr.tsig c.hdr.tsig := by
-  unfold callableOk
-  rw [bindSelf_method a b hb, bindSelf_method a c hc]
+theorem raw_static (a : τ) (m : FnMember τ) (hm : m.static = true) : m.raw a = m.hdr.tsig := by
+  simp [FnMember.raw, hm]
 
-/-- Outside `staticFirst`, an accepted pair of function members has compatible headers. -/
-theorem callableOk_hdr (R : TyRel τ) (a : τ) (b c : FnMember τ)
-    (hacc : callableOk R (b.raw a) (c.raw a) = true) (hs : D07_staticFirst R b c = false) :
-    sigCanAssign R b.hdr.tsig c.hdr.tsig = true := by
-  cases hb : b.static <;> cases hc : c.static <;>
-    simp only [D07_staticFirst, hb, hc, Bool.or_false, Bool.or_true, Bool.false_and, Bool.true_and,
-      Bool.not_eq_false'] at hs
-  · rw [callableOk_methods R a b c hb hc] at hacc; exact hacc
-  · cases h : sigCanAssign R b.hdr.tsig c.hdr.tsig <;> simp_all
-  · cases h : sigCanAssign R b.hdr.tsig c.hdr.tsig <;> simp_all
-  · cases h : sigCanAssign R b.hdr.tsig c.hdr.tsig <;> simp_all
+/-- For function members (methods and staticmethods alike, since /repo 7244153)
+`_can_assign_to_base_callable` is `Signature.can_assign` on the headers a caller passes. -/
+theorem callableOk_hdr (R : TyRel τ) (a : τ) (b c : FnMember τ) :
+    callableOk R b.static (b.raw a) c.static (c.raw a) = sigCanAssign R b.hdr.tsig c.hdr.tsig := by
+  have hB : (if b.static then some (b.raw a) else bindSelf (b.raw a)) = some b.hdr.tsig := by
+    cases hb : b.static
+    · simp [bindSelf_method a b hb]
+    · simp [raw_static a b hb]
+  have hC : (if c.static then some (c.raw a) else bindSelf (c.raw a)) = some c.hdr.tsig := by
+    cases hc : c.static
+    · simp [bindSelf_method a c hc]
+    · simp [raw_static a c hc]
+  unfold callableOk
+  rw [hB, hC]
 
 theorem overrideOk_iff (R : TyRel τ) (defs : Nat → Option (Member τ)) (anc : List Nat)
     (child : Member τ) :
